@@ -168,9 +168,15 @@ def _float_range(f):
         return False
 
 
-def _decoy(lines):
-    """the same file with every unit factor multiplied by 7 (a different definition set with the same names)"""
+def _base_of(lines):
+    return next((ln.split("=")[0].strip() for ln in lines if "=" in ln and ln.split("=", 1)[1].strip().startswith("[") and not ln.strip().startswith(("[", "@"))), None)
+
+
+def _decoy(lines, base=None):
+    """the same file with every unit factor multiplied by 7 and an extra base-unit factor (a different definition set with the same names:
+    other factors, other dimensions)"""
     out, block = [], None
+    base = base or _base_of(lines)
     for ln in lines:
         t = ln.split("#", 1)[0].strip()
         if t.startswith("@"):
@@ -181,7 +187,11 @@ def _decoy(lines):
             out.append(ln)
             continue
         head, rest = ln.split("=", 1)
-        out.append(f"{head}= 7 * {rest.lstrip()}")
+        nunit = sum(1 for o in out if "= 7 * " in o)
+        if base and ";" not in rest and block is None and nunit % 2 == 0:
+            out.append(f"{head}= 7 * {base} * {rest.lstrip()}")  # every other unit also changes its dimension
+        else:
+            out.append(f"{head}= 7 * {rest.lstrip()}")
     return out
 
 
@@ -210,14 +220,15 @@ def load(model, path, nit, workdir):
         with open(fn, "w", encoding="utf-8") as fh:
             fh.write("\n".join(lines) + "\n")
         cdir = os.path.join(sub, "cache")
-        for body_of in (_decoy, lambda b: b):
+        main_base = _base_of(lines)
+        for body_of in ((lambda b: _decoy(b, main_base)), None):
             for name, body in extra.items():
                 with open(os.path.join(sub, name), "w", encoding="utf-8") as fh:
-                    fh.write("\n".join(body_of(body)) + "\n")
+                    fh.write("\n".join(body_of(body) if body_of else body) + "\n")
             try:
                 ureg = pint.UnitRegistry(fn, non_int_type=T, cache_folder=cdir)
             except Exception:  # noqa: BLE001
-                if body_of is not _decoy:
+                if body_of is None:
                     raise
         return ureg
     if path in ("file", "import", "cache"):
